@@ -269,6 +269,50 @@ def normalise_private_params(relpath: str, tree: ast.Module) -> List[str]:
     return done
 
 
+def private_attributes(cls: ast.ClassDef) -> List[str]:
+    """private instance attributes (`self._x`) in document order of their first assignment in __init__"""
+    out: List[str] = []
+    for st in cls.body:
+        if isinstance(st, (ast.FunctionDef, ast.AsyncFunctionDef)) and st.name == "__init__":
+            def rec(n):
+                if isinstance(n, ast.Attribute) and isinstance(n.ctx, ast.Store) and isinstance(n.value, ast.Name) and n.value.id == "self" \
+                        and n.attr.startswith("_") and not n.attr.startswith("__") and n.attr not in out:
+                    out.append(n.attr)
+                for c in ast.iter_child_nodes(n):
+                    rec(c)
+            rec(st)
+    return out
+
+
+def normalise_private_attributes(relpath: str, tree: ast.Module) -> List[str]:
+    """a private attribute (`self._x`, first assigned in __init__) that was renamed gets its pinned name back when the class
+    still assigns the same number of private attributes in __init__ and the pinned name is no longer used"""
+    tab = table().get(relpath, {})
+    done = []
+    for st in tree.body:
+        if not isinstance(st, ast.ClassDef):
+            continue
+        want = tab.get("<attrs>:" + st.name)
+        if not want:
+            continue
+        cur = private_attributes(st)
+        if cur == want or len(cur) != len(want):
+            continue
+        mapping = {a: b for a, b in zip(cur, want) if a != b}
+        used = {n.attr for n in ast.walk(st) if isinstance(n, ast.Attribute)}
+        if any(b in used for b in mapping.values()) or len(set(mapping.values())) != len(mapping):
+            continue
+        # a renamed attribute and a property / method of the same new name would clash: skip then
+        members = {x.name for x in st.body if isinstance(x, (ast.FunctionDef, ast.AsyncFunctionDef))}
+        if members & set(mapping):
+            continue
+        for n in ast.walk(st):
+            if isinstance(n, ast.Attribute) and isinstance(n.value, ast.Name) and n.value.id == "self" and n.attr in mapping:
+                n.attr = mapping[n.attr]
+        done.append(f"attrs:{st.name}")
+    return done
+
+
 def _rename_scope(fn, ent: dict, is_nested: bool) -> bool:
     """rename one scope (and, recursively, its nested scopes); True if anything was renamed"""
     changed = False
@@ -296,7 +340,7 @@ def _rename_scope(fn, ent: dict, is_nested: bool) -> bool:
 def normalise_module(relpath: str, tree: ast.Module) -> List[str]:
     """rename private names of the module's functions back to the recorded names; returns the functions touched"""
     tab = table().get(relpath, {})
-    done = ["params:" + x for x in normalise_private_params(relpath, tree)]
+    done = ["params:" + x for x in normalise_private_params(relpath, tree)] + normalise_private_attributes(relpath, tree)
     for q, fn in outer_functions(tree):
         ent = tab.get(q)
         if not ent or "names" not in ent:
